@@ -414,24 +414,10 @@ func (i *introspectionVisitor) TypeRef(typeRef int) TypeRef {
 	switch i.definition.Types[typeRef].TypeKind {
 	case ast.TypeKindNamed:
 		name := i.definition.TypeNameBytes(typeRef)
-		node, exists := i.definition.Index.FirstNodeByNameBytes(name)
+		nodes, _ := i.definition.Index.NodesByNameBytes(name)
+		typeKind, exists := typeKindOfNamedType(nodes)
 		if !exists {
 			return TypeRef{TypeName: "__Type"}
-		}
-		var typeKind __TypeKind
-		switch node.Kind {
-		case ast.NodeKindScalarTypeDefinition, ast.NodeKindScalarTypeExtension:
-			typeKind = SCALAR
-		case ast.NodeKindObjectTypeDefinition, ast.NodeKindObjectTypeExtension:
-			typeKind = OBJECT
-		case ast.NodeKindEnumTypeDefinition, ast.NodeKindEnumTypeExtension:
-			typeKind = ENUM
-		case ast.NodeKindInterfaceTypeDefinition, ast.NodeKindInterfaceTypeExtension:
-			typeKind = INTERFACE
-		case ast.NodeKindUnionTypeDefinition, ast.NodeKindUnionTypeExtension:
-			typeKind = UNION
-		case ast.NodeKindInputObjectTypeDefinition, ast.NodeKindInputObjectTypeExtension:
-			typeKind = INPUTOBJECT
 		}
 		nameStr := unsafebytes.BytesToString(name)
 		return TypeRef{
@@ -456,6 +442,28 @@ func (i *introspectionVisitor) TypeRef(typeRef int) TypeRef {
 	default:
 		return TypeRef{TypeName: "__Type"}
 	}
+}
+
+// typeKindOfNamedType returns the kind of the first type among the nodes registered under one name. Types and
+// directives live in different namespaces, but the index holds directive definitions under their bare name too.
+func typeKindOfNamedType(nodes []ast.Node) (kind __TypeKind, exists bool) {
+	for _, node := range nodes {
+		switch node.Kind {
+		case ast.NodeKindScalarTypeDefinition, ast.NodeKindScalarTypeExtension:
+			return SCALAR, true
+		case ast.NodeKindObjectTypeDefinition, ast.NodeKindObjectTypeExtension:
+			return OBJECT, true
+		case ast.NodeKindEnumTypeDefinition, ast.NodeKindEnumTypeExtension:
+			return ENUM, true
+		case ast.NodeKindInterfaceTypeDefinition, ast.NodeKindInterfaceTypeExtension:
+			return INTERFACE, true
+		case ast.NodeKindUnionTypeDefinition, ast.NodeKindUnionTypeExtension:
+			return UNION, true
+		case ast.NodeKindInputObjectTypeDefinition, ast.NodeKindInputObjectTypeExtension:
+			return INPUTOBJECT, true
+		}
+	}
+	return SCALAR, false
 }
 
 func (i *introspectionVisitor) deprecationReason(directiveRef int) (reason *string) {
